@@ -1,6 +1,7 @@
 package main
 
 import (
+	"sort"
 	"bytes"
 	"context"
 	"fmt"
@@ -246,6 +247,20 @@ func raceOne(e *Enc, o *Obl, cfg *SolverCfg, base string) {
 		want = "sat"
 	}
 	file := fmt.Sprintf("%s.%s.smt2", base, sanitizeFile(strings.TrimPrefix(o.Name, o.Func)))
+	if want == "unsat" && !cfg.AllAgree && len(e.guardCases(o.Guard)) >= 2 {
+		// a join point: the per-path queries are usually much easier than the merged one
+		if o.Extra == nil {
+			o.Extra = map[string]string{}
+		}
+		quick := *cfg
+		if quick.TimeoutS > 5 {
+			quick.TimeoutS = 5
+		}
+		e.pathSplit(o, &quick, file)
+		if o.Result == "unsat" {
+			return
+		}
+	}
 	os.WriteFile(file, []byte(e.query(o, true)), 0o644)
 	if !cfg.KeepFiles {
 		defer os.Remove(file)
@@ -320,6 +335,9 @@ func raceOne(e *Enc, o *Obl, cfg *SolverCfg, base string) {
 		}
 		o.Result = res
 		o.Solver = "all"
+	}
+	if want == "unsat" && (o.Result == "unknown" || o.Result == "timeout") {
+		e.pathSplit(o, cfg, file)
 	}
 	if cfg.AllAgree && want == "unsat" && o.Result == "unsat" {
 		// count how many agreed
@@ -416,4 +434,109 @@ func collectFuns(t *Term, into map[string]*Sort) {
 	for _, p := range t.Pat {
 		collectFuns(p, into)
 	}
+}
+
+
+// guardCases: the disjuncts of a path guard (a named guard is looked up in its
+// defining fact  g = (or ...)).
+func (e *Enc) guardCases(g *Term) []*Term {
+	if g == nil {
+		return nil
+	}
+	if g.Op == "or" {
+		return g.Args
+	}
+	if g.Op == "" && len(g.Args) == 0 && g.Name != "" {
+		for _, f := range e.facts {
+			if (f.Guard == nil || f.Guard.IsTrue()) && f.T.Op == "=" && len(f.T.Args) == 2 {
+				if a := f.T.Args[0]; a.Op == "" && a.Name == g.Name && f.T.Args[1].Op == "or" {
+					return f.T.Args[1].Args
+				}
+			}
+		}
+	}
+	return nil
+}
+
+// pathSplit: an obligation at a join point whose query is too hard as a whole is
+// decided path by path: the guard is a disjunction of the incoming paths, and the
+// obligation holds iff it holds under each of them (z3-new only; every case must be
+// refuted).
+func (e *Enc) pathSplit(o *Obl, cfg *SolverCfg, file string) {
+	var leaves []*Term
+	var expand func(g *Term, depth int)
+	expand = func(g *Term, depth int) {
+		cs := e.guardCases(g)
+		if len(cs) < 2 || depth >= 2 || len(leaves)+len(cs) > 12 {
+			leaves = append(leaves, g)
+			return
+		}
+		for _, c := range cs {
+			expand(c, depth+1)
+		}
+	}
+	cs := e.guardCases(o.Guard)
+	if len(cs) < 2 {
+		return
+	}
+	for _, c := range cs {
+		expand(c, 1)
+	}
+	base := e.query(o, false)
+	total := 0.0
+	used := map[string]bool{}
+	for i, c := range leaves {
+		q := strings.Replace(base, "(check-sat)", "(assert "+c.String()+")\n(check-sat)", 1)
+		cf := fmt.Sprintf("%s.case%d.smt2", strings.TrimSuffix(file, ".smt2"), i)
+		os.WriteFile(cf, []byte(q), 0o644)
+		// race the two deciding solvers on this case
+		t0 := time.Now()
+		ctx, cancel := context.WithTimeout(context.Background(), time.Duration(cfg.TimeoutS+3)*time.Second)
+		type cres struct{ name, res string }
+		ch := make(chan cres, 2)
+		n := 0
+		for _, sp := range solvers {
+			if sp.name == "z3" {
+				continue
+			}
+			n++
+			go func(sp solverSpec) {
+				solverSlots <- struct{}{}
+				defer func() { <-solverSlots }()
+				out, _ := runSolver(ctx, sp.args(cf, cfg.TimeoutS))
+				ch <- cres{sp.name, firstAnswer(out)}
+			}(sp)
+		}
+		res := "unknown"
+		for j := 0; j < n; j++ {
+			r := <-ch
+			if r.res == "unsat" {
+				res = "unsat"
+				used[r.name] = true
+				break
+			}
+			if r.res == "sat" {
+				res = "sat"
+				break
+			}
+			if r.res == "timeout" {
+				res = "timeout"
+			}
+		}
+		cancel()
+		total += time.Since(t0).Seconds()
+		if !cfg.KeepFiles {
+			defer os.Remove(cf)
+		}
+		if res != "unsat" {
+			o.Extra["pathsplit"] = fmt.Sprintf("case %d of %d: %s", i+1, len(leaves), res)
+			return
+		}
+	}
+	var us []string
+	for k := range used {
+		us = append(us, k)
+	}
+	sort.Strings(us)
+	o.Result, o.Solver, o.TimeS = "unsat", fmt.Sprintf("%s(path-split %d)", strings.Join(us, "+"), len(leaves)), total
 }
